@@ -64,7 +64,17 @@ func main() {
 			if len(c.Pool) == 0 {
 				continue
 			}
-			hist.GenOps(r, &c.Case, run.Pick(40, 80), 1+r.IntN(2), false)
+			switch {
+			case i == 0:
+				// a node with more than 50 children, fully populated, then edited
+				c.Methods = hist.MethodPool[:1]
+				c.Pool = hist.GenPool(r, 4+r.IntN(6), true)
+				hist.GenFull(r, &c.Case, run.Pick(30, 60), 1+r.IntN(2))
+			case i%3 == 1:
+				hist.GenStory(r, &c.Case)
+			default:
+				hist.GenOps(r, &c.Case, run.Pick(40, 80), 1+r.IntN(2), false)
+			}
 			for j := range c.Ops {
 				if r.IntN(5) == 0 {
 					c.SnapAt = append(c.SnapAt, j)
